@@ -29,10 +29,17 @@ fn arg_u64(args: &[String], name: &str, default: u64) -> u64 {
     args.iter().position(|a| a == name).and_then(|i| args.get(i + 1)).and_then(|v| v.parse().ok()).unwrap_or(default)
 }
 
+static LAST_PANIC: std::sync::Mutex<String> = std::sync::Mutex::new(String::new());
+
 fn main() {
     // panics of the code under test are caught per case and reported through the result line
     if std::env::var("LSMVERIF_PANIC_TRACE").is_err() {
-        std::panic::set_hook(Box::new(|_| {}));
+        std::panic::set_hook(Box::new(|info| {
+            // remembered for the last-resort report below (a panic no per-case guard caught)
+            if let Ok(mut l) = LAST_PANIC.lock() {
+                *l = format!("{info}").chars().take(600).collect();
+            }
+        }));
     }
     let args: Vec<String> = std::env::args().collect();
     let cmd = args.get(1).map(String::as_str).unwrap_or("");
@@ -43,6 +50,18 @@ fn main() {
         fs::main(&args);
         return;
     }
+    let outcome = std::panic::catch_unwind(std::panic::AssertUnwindSafe(|| run(cmd, &args, seed, cases, &mut st)));
+    if outcome.is_err() {
+        // every case runs under its own guard; a panic that reaches this point (e.g. in glue around the modelled core) is
+        // still a failure of the real code on a generated input, reported instead of dying without a RESULT line
+        let msg = LAST_PANIC.lock().map(|l| l.clone()).unwrap_or_default();
+        st.oracle_failures.push(format!("PANIC outside any per-case guard while running `{}`: {msg}", args[1..].join(" ")));
+    }
+    println!("RESULT {}", st.to_json());
+}
+
+fn run(cmd: &str, args: &[String], seed: u64, cases: u64, st: &mut Stats) {
+    let mut st = st;
     match cmd {
         "ia" => {
             let which = args.get(2).map(String::as_str).unwrap_or("all");
@@ -92,12 +111,16 @@ fn main() {
             if args.iter().any(|a| a == "--stress") {
                 id::stress(seed, cases, blob, &mut st);
             } else {
-                id::campaign(seed, cases, inflight, blob, &mut st);
+                id::campaign(seed, cases, inflight, blob, args.iter().any(|a| a == "--deep"), &mut st);
             }
         }
         "flip" => {
             let thorough = args.iter().any(|a| a == "--thorough");
-            flip::run(seed, cases.max(1), thorough, &mut st, std::path::Path::new("/verif/work/replays"));
+            if args.iter().any(|a| a == "--worker") {
+                flip::run(seed, cases.max(1), thorough, &mut st, std::path::Path::new("/verif/work/replays"), true, arg_u64(&args, "--skip", 0));
+            } else {
+                flip::run_supervised(seed, cases.max(1), thorough, &mut st);
+            }
         }
         "ib" => {
             let profile = ib::Profile::parse(args.get(2).map(String::as_str).unwrap_or("all"));
@@ -119,5 +142,5 @@ fn main() {
             std::process::exit(2);
         }
     }
-    println!("RESULT {}", st.to_json());
 }
+
